@@ -90,7 +90,7 @@ def run_case(case):
     f0 = exprs.make_fun(r['prog'], c, a)
     jf = np.array(exprs.jet_floats(r['jet']))
     s0 = float(np.max(np.abs(jf)))
-    seen = [0.0]
+    seen = [0.0, 0.0]
 
     def f(z):
         with np.errstate(all='ignore'):
@@ -109,6 +109,7 @@ def run_case(case):
                 dev = np.abs(t - w)
             dev = np.where(np.isfinite(dev), dev, np.inf)
             seen[0] = max(seen[0], float(np.max(dev)))
+            seen[1] = max(seen[1], float(np.max(np.abs(t))))
         return v
     x = np.array([a, a]) if arr else a
     try:
@@ -116,7 +117,8 @@ def run_case(case):
             val, info = nd.Derivative(f, n=n, method=m, order=order, step=build_step(sk), full_output=True)(x)
     except Exception as ex:
         return ('raise', '%s: %s' % (type(ex).__name__, str(ex)[:160]))
-    tame = seen[0] <= 1e-3 * s0
+    # ... and f must stay within two orders of magnitude of its local scale on the whole stencil
+    tame = seen[0] <= 1e-3 * s0 and seen[1] <= 100.0 * s0
     v = np.asarray(val).ravel()
     e = np.asarray(info.error_estimate).ravel()
     return ('ok', [float(np.real(t)) for t in v], [float(np.imag(t)) for t in v] if np.iscomplexobj(v) else None, [float(t) for t in e], list(np.shape(val)), tame)
